@@ -40,3 +40,18 @@ func TestReplay11PlaceholderRange(t *testing.T) {
 	require.NoError(t, err)
 	require.Equal(t, int32(2147483647), q.Expr.GetEq().Placeholder)
 }
+
+// defect 19 (C09): an unterminated string after a complete query (or field list) vanishes from the token stream and
+// the shorter query is accepted.
+func TestReplay19UnterminatedStringDropped(t *testing.T) {
+	for _, s := range []string{`a = "1" "`, `a = "1" "xyz`, `a = "1" ; b, c "`, `a = "1"; b "x`, `(a = "1") "`, `a = "1" & b = "2" "zz`, "a = \"1\" \"tail with \"\" quote"} {
+		q, err := ParseQuery(s)
+		require.Error(t, err, s)
+		require.Nil(t, q, s)
+	}
+	// strings that end exactly at the end of the input are still fine
+	for _, s := range []string{`a = "1"`, `a = ""`, `a = """"`, `a = "x" ; b`} {
+		_, err := ParseQuery(s)
+		require.NoError(t, err, s)
+	}
+}
